@@ -155,6 +155,16 @@ Definition start_check_limit_handling : D unit :=
 (* ---- lost segment handling (dest.py:867-892) *)
 Definition tracker_add (sg : seg) : D unit := setp (fun p => p <| p_tracker ::= add sg |>).
 
+(* one iteration of the loop over list(tracker.lost_segments.items()) in _lost_segment_handling *)
+Definition remove_covered (offset end_ : Z) (sg : seg) : D unit :=
+  if (fst sg <? end_) && (offset <? snd sg) then
+    (tr <- gp p_tracker ;;
+     match LostSeg.remove (Z.max (fst sg) offset, Z.min (snd sg) end_) tr with
+     | Ok (tr', _) => setp (fun p => p <| p_tracker := tr' |>)
+     | Err _ => raise E_VALUE
+     end)
+  else ret tt.
+
 Definition lost_segment_handling (offset len : Z) : D unit :=
   last_end <- gp p_last_end ;;
   when (last_end <? offset)
@@ -167,11 +177,10 @@ Definition lost_segment_handling (offset len : Z) : D unit :=
     (setp (fun p => p <| p_last_start := offset |> <| p_last_end := offset + len |>)) ;;;
   last_start <- gp p_last_start ;;
   when (offset + len <=? last_start)
+    (* a re-sent File Data PDU may cover several tracked ranges or parts of them: of each tracked range exactly the part
+       the received data covers is removed (F9 repair); remove_within never leaves the range it is given *)
     (tr <- gp p_tracker ;;
-     match LostSeg.remove (offset, offset + len) tr with
-     | Ok (tr', _) => setp (fun p => p <| p_tracker := tr' |>)
-     | Err _ => raise E_VALUE
-     end).
+     fold_left (fun m sg => m ;;; remove_covered offset (offset + len) sg) tr (ret tt)).
 
 (* ---- file data (dest.py:816-855) *)
 Definition vfs_write (name : path) (data : bytes) (off : Z) : D unit :=
@@ -256,7 +265,12 @@ Definition deferred_lost_segment_handling : D unit :=
       | None => ret tt                      (* timer busy: wait *)
       | Some first =>
         cnt <- gp p_nak_counter ;;
-        if negb first && (cnt + 1 =? r_nak_limit r) then (declare_fault C_NAK_LIMIT ;;; ret tt)
+        (* at the limit the fault is declared; unless its handler is IGNORE the call ends there, otherwise the NAK sequence
+           is issued again and the counter keeps counting, so the limit is not declared by every later call (F22 repair) *)
+        stop <- (if negb first && (cnt + 1 =? r_nak_limit r)
+                 then (fh <- declare_fault C_NAK_LIMIT ;; ret (negb (fh =? FH_IGNORE)))
+                 else ret false) ;;
+        if stop then ret tt
         else
           h <- conf ;;
           match max_seg_reqs (r_max_packet r) h with
